@@ -141,8 +141,16 @@ def r1(R1, R3, cfg, F):
         g = [x for x in common.guards_of(b, dv[0].bb) if x[3][0] == 'discr' and common.deep_path(b, x[3][1]) == ['call@bb%d' % nx.bb]]
         ok = common.inevitable(b, g, dv[0].bb) and b.origins(dv[0].args[0], passthrough=common.pt_deref) == {('arg', 2)}
         conv = b.call_roots(dv[0].args[1])
-        ok = ok and len(conv) == 1 and conv[0].callee.name == 'into' and acc is not None and ('call', orc[0].bb) in b.origins(conv[0].args[0]) \
+        ok1 = len(conv) == 1 and conv[0].callee.name == 'into' and acc is not None and ('call', orc[0].bb) in b.origins(conv[0].args[0]) \
             and any(r[0] == 'agg' for r in b.origins(conv[0].args[0]))
+        if ok and not ok1 and acc is not None:
+            # the conversion ErrorKind -> BoxedError may be a private method written in place: what reaches default_value must
+            # still be made from the folded error (and from the NoDefaultValue it starts as), by conversions only
+            pt_c = common.make_pt(r'From<.*>>::from$|^std::convert::From::from$', r'Into<U>>::into$', r'^std::boxed::Box::<T>::new$')
+            ro = b.origins(dv[0].args[1], passthrough=pt_c)
+            ok1 = ('call', orc[0].bb) in ro and not [r for r in ro if r[0] == 'arg'] \
+                and not [r for r in ro if r[0] == 'call' and r[1] not in (orc[0].bb, rd.bb, wc.bb)]
+        ok = ok and ok1
     R3.check(ok, cfg, b.path, 'default_value(id, accumulated error)-on-exhaustion', 'when no extension loads, T::default_value(id, accumulated error) must decide the result', dv[0].loc() if dv else b.loc())
     # io errors become Io, loader errors become Conversion
     for frm, var in (('std::io::Error', 'Io'), ('std::boxed::Box<dyn std::error::Error + std::marker::Send + std::marker::Sync>', 'Conversion')):
